@@ -31,7 +31,15 @@ type tagBackend struct {
 }
 
 func newTagBackend(sends []byte) *tagBackend {
-	l, _ := net.Listen("tcp4", "127.0.0.1:0")
+	l, err := net.Listen("tcp4", "127.0.0.1:0")
+	for try := 0; err != nil && try < 100; try++ {
+		// ports or descriptors are short for a moment (thousands of tunnels a second): wait for the kernel
+		time.Sleep(100 * time.Millisecond)
+		l, err = net.Listen("tcp4", "127.0.0.1:0")
+	}
+	if err != nil {
+		panic("harness: cannot listen on loopback: " + err.Error())
+	}
 	b := &tagBackend{l: l, addr: l.Addr().String(), sends: sends}
 	go func() {
 		for {
